@@ -97,16 +97,23 @@ Qed.
 Lemma nil_change_repaired : set_resolve true (ex_cfg 0) no_json nil_req = Err CInvalid.
 Proof. vm_compute. reflexivity. Qed.
 
-(* ---------------- finding F-C13b: a delete naming only a leading part of an element name *)
+(* ---------------- former finding F-C13b (fixed by 2e764cc): a delete naming only a leading part of an element name *)
 
-Definition partial_req : request := mkReq (path [] []) [ path (B "t1") [el (B "sys"); el (B "su")] ] [] [] [].
+Definition partial_req (es : list elem) : request := mkReq (path [] []) [ path (B "t1") es ] [] [] [].
 
-(* /sys/su is no node of the model (it has /sys/sub/leaf and /sys/subx) and no element-wise leading part of one *)
-Lemma partial_name_delete_accepted :
-  set_resolve false (ex_cfg 0) no_json partial_req =
-  Ok (mkTx [ (B "t1", [ (B "/sys/su", CDel) ]) ] [ (B "t1", (B "devicesim", B "1.0.0")) ]) /\
-  forallb (fun e => negb (eqb_str (B "/sys/su") (rw_path e)) && negb (prefixb (B "/sys/su/") (rw_path e))) (pl_rw ex_plugin) = true.
-Proof. split; vm_compute; reflexivity. Qed.
+(* regression: /sys/su, /sy and /ifs/if[name=x]/desc are no nodes of the model and no ancestors of one by whole
+   elements - refused; the genuine ancestors /sys, /sys/sub and the list entry /ifs/if[name=x] are accepted *)
+Example partial_name_delete_refused :
+  set_resolve false (ex_cfg 0) no_json (partial_req [el (B "sys"); el (B "su")]) = Err CInvalid /\
+  set_resolve false (ex_cfg 0) no_json (partial_req [el (B "sy")]) = Err CInvalid /\
+  set_resolve false (ex_cfg 0) no_json (partial_req [el (B "ifs"); elk (B "if") [(B "name", B "x")]; el (B "desc")]) = Err CInvalid /\
+  set_resolve false (ex_cfg 0) no_json (partial_req [el (B "sys")]) =
+    Ok (mkTx [ (B "t1", [ (B "/sys", CDel) ]) ] [ (B "t1", (B "devicesim", B "1.0.0")) ]) /\
+  set_resolve false (ex_cfg 0) no_json (partial_req [el (B "sys"); el (B "sub")]) =
+    Ok (mkTx [ (B "t1", [ (B "/sys/sub", CDel) ]) ] [ (B "t1", (B "devicesim", B "1.0.0")) ]) /\
+  set_resolve false (ex_cfg 0) no_json (partial_req [el (B "ifs"); elk (B "if") [(B "name", B "x")]]) =
+    Ok (mkTx [ (B "t1", [ (B "/ifs/if[name=x]", CDel) ]) ] [ (B "t1", (B "devicesim", B "1.0.0")) ]).
+Proof. repeat split; vm_compute; reflexivity. Qed.
 
 (* ---------------- GNMI_SET_SIZE_LIMIT parsing *)
 Example parse_limit_examples :
